@@ -624,16 +624,44 @@ def bRange : Body := fun _ args =>
     else .ok (.arr ((Arr.range lo hi).map (fun k => .num (.int k))))
   | _ => bad
 
-/-- the `while dispatch("<=", (curr, hi))` loop of `ka_range` -/
+/-- the `while dispatch("<=", (curr, hi))` loop of `ka_range` (functions.py, after fix efcc27a), the same
+    `dispatch` calls in the same order:
+
+        while dispatch("<=", (curr, hi)):
+            result.append(curr)
+            nxt = dispatch("+", (curr, step))
+            if not dispatch("<", (curr, nxt)): raise FunctionArgError(...)   # 1e16 + 0.5 == 1e16
+            curr = nxt
+
+    The first argument bounds the number of rounds.  With the no-progress guard every round strictly
+    increases `curr`, so the Python loop ends by itself; the model never answers `diverges` here: when
+    the bound is reached it DECLINES (`unmodelled "huge range"`), like `lo..hi` beyond `maxRange`.
+    `bKaRange` supplies a bound that is never reached for exact operands (`PIPE_range_step`). -/
 def kaRangeLoop (rec : Disp) (hi step : Num) : Nat → Num → List Val → R Val
-  | 0, _, _ => raise .diverges
+  | 0, _, _ => .error (.unmodelled "huge range")
   | f + 1, curr, acc => do
     let c ← rnum rec "<=" [curr, hi]
     if truthy c then do
       let nx ← rnum rec "+" [curr, step]
+      let g ← rnum rec "<" [curr, nx]
+      if !truthy g then raise .funArg else
       kaRangeLoop rec hi step f nx (.num curr :: acc)
     else .ok (.arr acc.reverse)
 
+/-- the number of rounds `bKaRange` allows the loop of `ka_range`.
+    * Exact operands (ints, Fractions): every `+` is exact, the loop lists `lo + k·step ≤ hi` and stops
+      after `⌊(hi−lo)/step⌋ + 2` rounds; `+ 3` is never reached (`PIPE_range_step`).
+    * A float among the operands: `curr + step` is rounded, so one round can advance by LESS than `step`
+      (`range(2251799813685248.5, 2251799813685268.5, 0.7)` has 41 elements, not 29) and the count is not
+      a function of `(hi−lo)/step`.  The guard still makes every round advance, so the loop ends; the
+      model allows up to `maxRange` elements and declines beyond. -/
+def kaRangeFuel (lo hi step : Num) : Nat :=
+  if lo.isExact && hi.isExact && step.isExact then (((hi.toRat - lo.toRat) / step.toRat).floor.toNat) + 3
+  else maxRange + 1
+
+/-- `ka_range`: the two argument guards, then the loop.  A range whose nominal length
+    `⌊(hi−lo)/step⌋ + 3` exceeds `maxRange` is declined before the loop starts (for every kind; with
+    floats the nominal length is only an estimate, the loop's own bound `kaRangeFuel` decides). -/
 def bKaRange : Body := fun rec args =>
   match args with
   | [.num lo, .num hi, .num step] => do
@@ -643,7 +671,7 @@ def bKaRange : Body := fun rec args =>
     if !truthy c2 then raise .funArg else
     let n := (((hi.toRat - lo.toRat) / step.toRat).floor.toNat) + 3
     if n > maxRange then .error (.unmodelled "huge range") else
-    kaRangeLoop rec hi step n lo []
+    kaRangeLoop rec hi step (kaRangeFuel lo hi step) lo []
   | _ => bad
 
 /-! #### instants (functions.py "Dates & times"; types.py through Model/Instant.lean) -/
